@@ -5,6 +5,16 @@ Import ListNotations.
 Open Scope string_scope.
 Open Scope list_scope.
 
+Arguments nat_to_str : simpl never.
+Arguments pfx_name : simpl never.
+Arguments members_of : simpl never.
+Arguments mangle : simpl never.
+Arguments join_with : simpl never.
+Arguments String.append : simpl never.
+Arguments many : simpl never.
+Arguments group_members : simpl never.
+Arguments ar_ext_line : simpl never.
+
 (* ------------------------------------------------------------------ error before lines *)
 
 (* "an error comes with no line" *)
@@ -126,13 +136,18 @@ Ltac crush_ebl :=
   cbn; intros; try discriminate; try reflexivity; try congruence.
 
 (* every condition, every vendor: no guard needed *)
+Ltac cond_step :=
+  match goal with
+  | |- context [many ?l] => destruct (many l)
+  | |- context [find_rd ?e ?n] => destruct (find_rd e n)
+  | |- context [match ?l with [] => _ | _ :: _ => _ end] => destruct l
+  end.
+
 Lemma cond_error_before_lines : forall v e c, ebl (emit_cond v e c).
 Proof.
   intros v e c er. destruct v; destruct c as [f o names|o names|v6 names ge le|o v1 v2|n|f o w]; cbn.
-  all: try (destruct f); try (destruct o); try (destruct v6); cbn;
-    try (destruct (many names)); cbn; try discriminate; try reflexivity.
-  all: try (destruct names as [|n0 names]; cbn; try discriminate; try reflexivity;
-            destruct (find_rd e n0); cbn; try discriminate; reflexivity).
+  all: try (destruct f); try (destruct o); try (destruct v6); cbn; try discriminate; try reflexivity.
+  all: repeat (cond_step; cbn; try discriminate; try reflexivity).
 Qed.
 
 Lemma hw_action_ebl e a : wf_action e a = true -> ebl (hw_action patched e a).
@@ -145,7 +160,7 @@ Proof.
     + (* extcommunity *)
       cbn in Hwf. destruct replaced as [r|].
       * apply forallb_app_inv in Hwf as [Hr Hwf].
-        destruct added as [|a0 added]; destruct removed as [|r0 removed]; try (intros er; crush_ebl).
+        destruct added as [|a0 added]; destruct removed as [|r0 removed]; try (solve [intros er; crush_ebl]).
         destruct r as [|r1 r]; [intros er; crush_ebl|].
         cbn [hw_action nonempty orb negb]. cbn [fx_hw_ext patched andb].
         set (g := group_members e (r1 :: r)).
@@ -175,7 +190,7 @@ Proof.
     + intros er. destruct replaced as [[|r1 r]|], added, removed; crush_ebl.
     + cbn in Hwf. destruct replaced as [r|].
       * apply forallb_app_inv in Hwf as [Hr Hwf].
-        destruct added as [|a0 added]; destruct removed as [|r0 removed]; try (intros er; crush_ebl).
+        destruct added as [|a0 added]; destruct removed as [|r0 removed]; try (solve [intros er; crush_ebl]).
         destruct r as [|r1 r]; [intros er; crush_ebl|].
         apply ebl_safe. cbn. apply ar_ext_line_safe. exact Hr.
       * cbn in Hwf. apply forallb_app_inv in Hwf as [Ha Hr].
@@ -196,7 +211,7 @@ Proof.
     + intros er. destruct replaced as [r|], added, removed; crush_ebl.
     + cbn in Hwf. destruct replaced as [r|].
       * apply forallb_app_inv in Hwf as [Hr Hwf].
-        destruct added as [|a0 added]; destruct removed as [|r0 removed]; try (intros er; crush_ebl).
+        destruct added as [|a0 added]; destruct removed as [|r0 removed]; try (solve [intros er; crush_ebl]).
         destruct r as [|r1 r]; [intros er; crush_ebl|].
         apply ebl_safe. cbn. repeat apply safe_seq; try reflexivity.
         apply cu_ext_groups_safe. apply group_members_types. exact Hr.
@@ -222,3 +237,44 @@ Qed.
 Lemma cond_error_before_lines' :
   forall v e c er, snd (emit_cond v e c) = Some er -> fst (emit_cond v e c) = [].
 Proof. intros v e c er. apply cond_error_before_lines. Qed.
+
+(* ------------------------------------------------------------------ the unchanged tree *)
+
+(* lines of an item are streamed and then the same item is rejected *)
+Definition partial_emission (fx : fixes) (v : vendor) (e : env) (a : action) : Prop :=
+  wf_action e a = true /\
+  exists er, snd (emit_action fx v e a) = Some er /\ fst (emit_action fx v e a) <> [].
+
+Definition env0 : env :=
+  Env [CL "RT1" ["100:1"] RT LOR false; CL "SOO1" ["100:2"] SOO LOR false; CL "L1" ["1:1:1"] LARGE LOR false]
+      [] [] [].
+
+Ltac refute := split; [vm_compute; reflexivity | eexists; split; [vm_compute; reflexivity | vm_compute; discriminate]].
+
+Lemma hw_next_hop_refuted : partial_emission faithful Huawei env0 (ANextHop NHv4 "192.0.2.1").
+Proof. refute. Qed.
+Lemma hw_as_path_refuted : partial_emission faithful Huawei env0 (AAsPath (Some ["1"; "2"]) [] ["3"] [] "").
+Proof. refute. Qed.
+Lemma hw_extcommunity_refuted : partial_emission faithful Huawei env0 (AComm AFExt (Some ["RT1"; "SOO1"]) [] []).
+Proof. refute. Qed.
+Lemma hw_extcommunity_soo_refuted : partial_emission faithful Huawei env0 (AComm AFExtSoo None ["SOO1"] ["SOO1"]).
+Proof. refute. Qed.
+Lemma ar_as_path_refuted : partial_emission faithful Arista env0 (AAsPath (Some ["1"; "2"]) [] [] ["3"] "").
+Proof. refute. Qed.
+Lemma cu_as_path_refuted : partial_emission faithful Cumulus env0 (AAsPath None ["1"] ["3"] [] "").
+Proof. refute. Qed.
+Lemma cu_large_refuted : partial_emission faithful Cumulus env0 (AComm AFLarge None ["L1"] ["L1"]).
+Proof. refute. Qed.
+Lemma cu_ext_rt_refuted : partial_emission faithful Cumulus env0 (AComm AFExtRt None ["RT1"] ["RT1"]).
+Proof. refute. Qed.
+Lemma cu_ext_soo_refuted : partial_emission faithful Cumulus env0 (AComm AFExtSoo None ["SOO1"] ["SOO1"]).
+Proof. refute. Qed.
+
+(* the same inputs are handled atomically by the repaired code *)
+Lemma patched_examples :
+  emit_action patched Huawei env0 (ANextHop NHv4 "192.0.2.1") = ([["apply"; "ip-address"; "next-hop"; "192.0.2.1"]], None) /\
+  emit_action patched Huawei env0 (AAsPath (Some ["1"; "2"]) [] ["3"] [] "") = ([], Some ERuntime) /\
+  emit_action patched Huawei env0 (AComm AFExt (Some ["RT1"; "SOO1"]) [] []) = ([], Some ENotImpl) /\
+  emit_action patched Arista env0 (AAsPath (Some ["1"; "2"]) [] [] ["3"] "") = ([], Some ERuntime) /\
+  emit_action patched Cumulus env0 (AComm AFLarge None ["L1"] ["L1"]) = ([], Some ENotImpl).
+Proof. vm_compute. repeat split. Qed.
